@@ -10,7 +10,8 @@ use crate::hast::{H, hb};
 use crate::util::Rng;
 use num_bigint::BigInt;
 
-pub const KINDS: [&str; 21] = [
+pub const KINDS: [&str; 22] = [
+    "ground-type-swap",
     "group-insert-definition",
     "group-insert-definition",
     "group-append-and-retarget",
@@ -185,6 +186,8 @@ impl Ed<'_> {
                 Some(H::Bin(m, b.clone(), a.clone()))
             }
             ("branch-swap", H::If(c, a, b)) if a != b => Some(H::If(c.clone(), b.clone(), a.clone())),
+            ("ground-type-swap", H::Int) => Some(H::Bool),
+            ("ground-type-swap", H::Bool) => Some(H::Int),
             ("bool-flip", H::True) => Some(H::False),
             ("bool-flip", H::False) => Some(H::True),
             ("interpose-definition", _) if pos == Pos::Other && !matches!(x, H::Paren(_)) => {
@@ -372,6 +375,36 @@ pub fn edit(h: &H, r: &mut Rng) -> Option<(H, &'static str)> {
                 continue;
             }
             return Some((out, kind));
+        }
+    }
+    None
+}
+
+// One edit of the given kind at a node chosen uniformly among those where it applies.
+pub fn edit_with_kind(h: &H, r: &mut Rng, kind: &'static str) -> Option<H> {
+    let n = count(h);
+    let names = all_names(h);
+    let fresh_of = |base: &str| -> String {
+        let mut i = 0;
+        loop {
+            let c = if i == 0 { base.to_owned() } else { format!("{base}{i}") };
+            if !names.contains(&c) {
+                return c;
+            }
+            i += 1;
+        }
+    };
+    let (fresh, fresh2) = (fresh_of("ed"), fresh_of("edz"));
+    let cyclic = has_definition_cycle(h);
+    let mut order: Vec<usize> = (0..n).collect();
+    for i in (1..n).rev() {
+        order.swap(i, r.usize(i + 1));
+    }
+    for target in order {
+        let mut ed = Ed { r: &mut *r, kind, target, k: 0, done: false, fresh: fresh.clone(), fresh2: fresh2.clone(), defining: vec![] };
+        let out = ed.go(h, &mut vec![], Pos::Other);
+        if ed.done && out != *h && (cyclic || !has_definition_cycle(&out)) {
+            return Some(out);
         }
     }
     None
